@@ -420,7 +420,9 @@ class DataFrameModel(Generic[TDataFrame, TSchema], BaseModel):
         method_names = set()
         check_infos = []
         for base in bases:
-            for attr_name, attr_value in vars(base).items():
+            # iterate a snapshot: another thread's first ``to_schema`` call may
+            # add attributes to the class while we are looking at it
+            for attr_name, attr_value in list(vars(base).items()):
                 check_info = getattr(attr_value, key, None)
                 if not isinstance(check_info, CheckInfo):
                     continue
@@ -444,7 +446,9 @@ class DataFrameModel(Generic[TDataFrame, TSchema], BaseModel):
         method_names = set()
         parser_infos = []
         for base in bases:
-            for attr_name, attr_value in vars(base).items():
+            # iterate a snapshot: another thread's first ``to_schema`` call may
+            # add attributes to the class while we are looking at it
+            for attr_name, attr_value in list(vars(base).items()):
                 parser_info = getattr(attr_value, key, None)
                 if not isinstance(parser_info, ParserInfo):
                     continue
